@@ -124,6 +124,11 @@ def build_stack(world, wspec):
         return _base.PooledClient(servers[0], **kw)
     if stack == "hash":
         return _hash_mod.HashClient(servers, **kw)
+    if stack == "retrying_stub":
+        rk = {k: codec.dec(v) for k, v in (wspec.get("retry_kwargs") or {}).items()}
+        stub = ScriptedClient(wspec.get("script") or [])
+        world.stub = stub
+        return _retry_mod.RetryingClient(stub, **rk)
     if stack == "retrying":
         rk = {k: codec.dec(v) for k, v in (wspec.get("retry_kwargs") or {}).items()}
         inner_kind = wspec.get("inner", "client")
@@ -145,6 +150,37 @@ def build_stack(world, wspec):
     if stack == "aws":
         return _aws_mod.AWSElastiCacheHashClient(wspec["cfg_node"], **kw)
     raise ValueError("unknown stack %r" % stack)
+
+
+class ScriptedClient:
+    """Stub inner client for C17(a): each invocation of op() consumes one scripted outcome."""
+
+    def __init__(self, script):
+        self.script = list(script)
+        self.calls = []
+        self.produced = []
+
+    def op(self, *args, **kwargs):
+        self.calls.append((args, kwargs))
+        i = len(self.calls) - 1
+        o = self.script[i] if i < len(self.script) else "ok"
+        if o == "ok":
+            r = codec.Sentinel("result-%d" % i)
+            self.produced.append(r)
+            return r
+        e = codec.exc_class(o)("scripted failure %d" % i)
+        self.produced.append(e)
+        raise e
+
+    # the magic-method paths of RetryingClient go through set/get/delete
+    def set(self, *a, **k):
+        return self.op("set", *a, **k)
+
+    def get(self, *a, **k):
+        return self.op("get", *a, **k)
+
+    def delete(self, *a, **k):
+        return self.op("delete", *a, **k)
 
 
 # ---------------------------------------------------------------- result
@@ -189,7 +225,7 @@ def _is_sim_exc(e):
     if isinstance(e, (KeyboardInterrupt, SystemExit, codec.SimInterrupt)) and e.args and \
             isinstance(e.args[0], str) and e.args[0].startswith("sim:"):
         return True
-    if isinstance(e, DeserError):
+    if isinstance(e, (DeserError, codec.XBase, codec.XUnrelated)):
         return True
     return False
 
